@@ -304,3 +304,15 @@ def publish_normalised(fn_node):
     new = T().visit(new)
     _ast.fix_missing_locations(new)
     return new
+
+
+def oriented(node):
+    """clone of an expression / statement with every single comparison written with < / <= (for comparing texts of guards
+    independently of the side the operands were written on)"""
+    n = clone(node)
+    swap = {ast.Gt: ast.Lt, ast.GtE: ast.LtE}
+    for x in ast.walk(n):
+        if isinstance(x, ast.Compare) and len(x.ops) == 1 and type(x.ops[0]) in swap:
+            x.left, x.comparators[0] = x.comparators[0], x.left
+            x.ops[0] = swap[type(x.ops[0])]()
+    return n
